@@ -117,10 +117,16 @@ func (l *mapLoop) earlyExits() []*ssa.BasicBlock {
 
 // dependsOnIter: does v depend on the loop's key/value (data dependence within the function)?
 func (l *mapLoop) dependsOnIter(v ssa.Value) bool {
-	return core.Mentions(v, func(x ssa.Value) bool {
+	isIter := func(x ssa.Value) bool {
 		ex, ok := x.(*ssa.Extract)
 		return ok && ex.Tuple == ssa.Value(l.next)
-	})
+	}
+	if !core.Mentions(v, isIter) {
+		return false
+	}
+	// a result of a same-package helper depends on the entry only if the helper lets the argument flow into it
+	pk := core.PkgOf(l.fn)
+	return core.MentionsThroughCalls(v, isIter, func(g *ssa.Function) bool { return core.PkgOf(g) == pk })
 }
 
 // keyOnly: v is a function of the range KEY only (not of the value) - then distinct iterations
